@@ -239,6 +239,18 @@ def _probe_other_tasks(ctx, spec, evaluation):
         ctx.fail(f"after other evaluations in the same process {t} gives another result for the same input: {got[:2]} instead of {_PROBES[t][:2]}", spec, got, _PROBES[t], kind="state_between_evaluations")
 
 
+def _same_score(x, y):
+    if x is None or y is None:
+        return x is None and y is None
+    return x == y or (x != x and y != y)
+
+
+def spec_hash_small(spec):
+    import json, zlib
+
+    return zlib.crc32(json.dumps(spec, sort_keys=True, default=str).encode())
+
+
 def check(spec, ctx):
     from soundevent import evaluation, io
 
@@ -394,6 +406,18 @@ def check(spec, ctx):
         ctx.fail(f"evaluation metrics depend on the order of the clips: {a} vs {b}", spec, a, b, kind="order_dependence")
     if (ev.score is None) != (ev2.score is None) or (ev.score is not None and abs(ev.score - ev2.score) > 1e-12):
         ctx.fail(f"evaluation score depends on the order of the clips: {ev.score} vs {ev2.score}", spec, ev.score, ev2.score, kind="order_dependence")
+
+    # the inputs are declared as Sequence: a user's own sequence type and a deque are sequences too
+    import collections as _c
+    from vf.core import SeqView
+
+    S1, S2, S3 = ((SeqView, _c.deque, tuple), (_c.deque, tuple, SeqView), (tuple, SeqView, _c.deque))[spec_hash_small(spec) % 3]
+    with warnings.catch_warnings():
+        warnings.simplefilter("ignore")
+        ev3 = ctx.call(spec, f"{task} ({S1.__name__}, {S2.__name__}, {S3.__name__} inputs)", fn, S1(cps), S2(cas), S3(vocab))
+    c = dict(features(ev3.metrics))
+    if set(a) != set(c) or any(a[k] != c[k] for k in a if not (np.isnan(a[k]) and np.isnan(c[k]))) or not _same_score(ev3.score, ev.score):
+        ctx.fail(f"{task} on ({S1.__name__}, {S2.__name__}, {S3.__name__}) inputs differs from the call on lists: {c} / {ev3.score} vs {a} / {ev.score}", spec, c, a, kind="sequence_inputs")
 
     # AOEF round trip keeps every metric
     path = os.path.join(scratch(), "eval09.json")
